@@ -236,6 +236,9 @@ class SeriesContainer:
                     self.detected_ndim = len(self.series[0][0])
                 else:
                     self.detected_ndim = 1
+            elif isinstance(self.series[0], array):
+                # array.array is always a one-dimensional series
+                self.detected_ndim = 1
         else:
             self.series = series
 
